@@ -15,3 +15,8 @@ def hop_distance_routines_agree(G):
     R1, D1 = breadthdist(G)
     R2, D2 = reachdist(G, True)
     return Db, D1, D2, R1, R2
+
+
+def path_from_floyd(adjacency, s, t):
+    SPL, hops, Pmat = distance_wei_floyd(adjacency, None)
+    return retrieve_shortest_path(s, t, hops, Pmat)
